@@ -1,6 +1,6 @@
 /-
   `FailoverGroup` under concurrency (Model/Failover.lean): with a permanently healthy member no
-  request ever fails, in every interleaving.
+  request ever fails, in every interleaving; the lock discipline; progress.
 -/
 import Desync.Model.Failover
 
@@ -50,31 +50,200 @@ theorem d_succ {n h a : Nat} (hh : h < n) (ha : a < n) (hne : a ≠ h) :
     rw [this, Nat.mod_self]
     split <;> split <;> omega
 
-/-- per-caller invariant (`act` is the shared `active` index) -/
-def Good (n h act : Nat) : PC → Prop
-  | .idle => True
-  | .ok => True
-  | .failed => False
-  | .readCur i => i + d n h act ≤ n - 1
-  | .calling i a => a < n ∧ i + d n h a ≤ n - 1 ∧ d n h act ≤ d n h a
-  | .erred i a => a < n ∧ a ≠ h ∧ i + d n h a ≤ n - 1 ∧ d n h act ≤ d n h a
+/-! ### the step function as a relation -/
 
-theorem Good.mono {n h act act' : Nat} {pc : PC} (hle : d n h act' ≤ d n h act)
-    (hg : Good n h act pc) : Good n h act' pc := by
-  cases pc with
-  | idle => trivial
-  | ok => trivial
-  | failed => exact hg
-  | readCur i => simp only [Good] at hg ⊢; omega
-  | calling i a => simp only [Good] at hg ⊢; omega
-  | erred i a => simp only [Good] at hg ⊢; omega
+/-- the caller an event belongs to -/
+def Ev.caller : Ev → Nat
+  | .wantR t => t
+  | .rlock t => t
+  | .runlock t => t
+  | .call t _ => t
+  | .ret t _ => t
+  | .wantW t => t
+  | .lock t => t
+  | .errFrom t => t
+  | .unlock t => t
+  | .giveUp t => t
 
-/-- the inductive invariant -/
-structure Inv (n h : Nat) (s : St) : Prop where
-  hn : s.n = n
-  hh : s.h = h
-  act : s.active < n
-  good : ∀ (t : Nat) (pc : PC), s.callers[t]? = some pc → Good n h s.active pc
+/-- `Tr s pc e pc' act'`: in state `s` the caller of `e`, at `pc`, may take `e`; it continues at `pc'`
+    and leaves `active = act'` -/
+inductive Tr (s : St) : PC → Ev → PC → Nat → Prop
+  | wantR (t i : Nat) : i < s.n → Tr s (.next i) (.wantR t) (.wantR i) s.active
+  | giveUp (t i : Nat) : ¬ i < s.n → Tr s (.next i) (.giveUp t) .failed s.active
+  | rlock (t i : Nat) : rlockFree s = true → Tr s (.wantR i) (.rlock t) (.holdR i s.active) s.active
+  | runlock (t i a : Nat) : Tr s (.holdR i a) (.runlock t) (.toCall i a) s.active
+  | call (t i a : Nat) : Tr s (.toCall i a) (.call t a) (.calling i a) s.active
+  | retOk (t i a : Nat) (o : Out) (op : Op) (p : Bool) : s.reqs[t]? = some (op, p) →
+      classify op o = some true → (a = s.h ∨ s.truthful = true → o = truth op p) →
+      Tr s (.calling i a) (.ret t o) (.ok o a) s.active
+  | retErr (t i a : Nat) (o : Out) (op : Op) (p : Bool) : s.reqs[t]? = some (op, p) →
+      classify op o = some false → a ≠ s.h →
+      Tr s (.calling i a) (.ret t o) (.erred i a) s.active
+  | wantW (t i a : Nat) : Tr s (.erred i a) (.wantW t) (.wantW i a) s.active
+  | lock (t i a : Nat) : lockFree s = true → Tr s (.wantW i a) (.lock t) (.holdW i a) s.active
+  | advance (t i : Nat) : Tr s (.holdW i s.active) (.errFrom t) (.advd i) ((s.active + 1) % s.n)
+  | stale (t i a : Nat) : a ≠ s.active → Tr s (.holdW i a) (.errFrom t) (.advd i) s.active
+  | unlock (t i : Nat) : Tr s (.advd i) (.unlock t) (.next (i + 1)) s.active
+
+theorem classify_truth (op : Op) (p : Bool) : classify op (truth op p) = some true := by
+  cases op <;> cases p <;> rfl
+
+/-- every step is one caller's transition: nothing but its program counter and `active` changes -/
+theorem step_spec {s s' : St} {e : Ev} (hs : step s e = some s') :
+    ∃ pc pc' act', s.callers[e.caller]? = some pc ∧ Tr s pc e pc' act' ∧
+      s' = { s with active := act', callers := s.callers.set e.caller pc' } := by
+  cases e with
+  | wantR t =>
+    simp only [step] at hs
+    split at hs
+    · rename_i i hpc
+      split at hs
+      · rename_i hlt
+        injection hs with hs; subst hs
+        exact ⟨_, _, _, hpc, .wantR t i hlt, rfl⟩
+      · cases hs
+    · cases hs
+  | giveUp t =>
+    simp only [step] at hs
+    split at hs
+    · rename_i i hpc
+      split at hs
+      · cases hs
+      · rename_i hlt
+        injection hs with hs; subst hs
+        exact ⟨_, _, _, hpc, .giveUp t i hlt, rfl⟩
+    · cases hs
+  | rlock t =>
+    simp only [step] at hs
+    split at hs
+    · rename_i i hpc
+      split at hs
+      · rename_i hf
+        injection hs with hs; subst hs
+        exact ⟨_, _, _, hpc, .rlock t i hf, rfl⟩
+      · cases hs
+    · cases hs
+  | runlock t =>
+    simp only [step] at hs
+    split at hs
+    · rename_i i a hpc
+      injection hs with hs; subst hs
+      exact ⟨_, _, _, hpc, .runlock t i a, rfl⟩
+    · cases hs
+  | call t m =>
+    simp only [step] at hs
+    split at hs
+    · rename_i i a hpc
+      split at hs
+      · rename_i hm
+        injection hs with hs; subst hs; subst hm
+        exact ⟨_, _, _, hpc, .call t i m, rfl⟩
+      · cases hs
+    · cases hs
+  | ret t o =>
+    simp only [step] at hs
+    split at hs
+    · rename_i i a op p hpc hrq
+      split at hs
+      · cases hs
+      · rename_i hcond
+        split at hs
+        · rename_i hcl
+          injection hs with hs; subst hs
+          refine ⟨_, _, _, hpc, .retOk t i a o op p hrq hcl ?_, rfl⟩
+          intro hor
+          apply Classical.byContradiction
+          intro hne
+          apply hcond
+          refine ⟨?_, hne⟩
+          rcases hor with h1 | h1
+          · exact Or.inl h1
+          · exact Or.inr ⟨h1, hcl⟩
+        · rename_i hcl
+          injection hs with hs; subst hs
+          refine ⟨_, _, _, hpc, .retErr t i a o op p hrq hcl ?_, rfl⟩
+          intro hah
+          apply hcond
+          refine ⟨Or.inl hah, ?_⟩
+          intro ho
+          rw [ho, classify_truth] at hcl
+          cases hcl
+        · cases hs
+    · cases hs
+  | wantW t =>
+    simp only [step] at hs
+    split at hs
+    · rename_i i a hpc
+      injection hs with hs; subst hs
+      exact ⟨_, _, _, hpc, .wantW t i a, rfl⟩
+    · cases hs
+  | lock t =>
+    simp only [step] at hs
+    split at hs
+    · rename_i i a hpc
+      split at hs
+      · rename_i hf
+        injection hs with hs; subst hs
+        exact ⟨_, _, _, hpc, .lock t i a hf, rfl⟩
+      · cases hs
+    · cases hs
+  | errFrom t =>
+    simp only [step] at hs
+    split at hs
+    · rename_i i a hpc
+      injection hs with hs; subst hs
+      by_cases hact : a = s.active
+      · subst hact
+        rw [if_pos rfl]
+        exact ⟨_, _, _, hpc, .advance t i, rfl⟩
+      · rw [if_neg hact]
+        exact ⟨_, _, _, hpc, .stale t i a hact, rfl⟩
+    · cases hs
+  | unlock t =>
+    simp only [step] at hs
+    split at hs
+    · rename_i i hpc
+      injection hs with hs; subst hs
+      exact ⟨_, _, _, hpc, .unlock t i, rfl⟩
+    · cases hs
+
+/-- and conversely: every transition of the relation is a step -/
+theorem step_of_tr {s : St} {e : Ev} {pc pc' : PC} {act' : Nat}
+    (hpc : s.callers[e.caller]? = some pc) (htr : Tr s pc e pc' act') :
+    step s e = some { s with active := act', callers := s.callers.set e.caller pc' } := by
+  cases htr with
+  | wantR t i hlt => simp only [Ev.caller] at hpc; simp only [step, hpc, if_pos hlt, setC, Ev.caller]
+  | giveUp t i hlt => simp only [Ev.caller] at hpc; simp only [step, hpc, if_neg hlt, setC, Ev.caller]
+  | rlock t i hf => simp only [Ev.caller] at hpc; simp only [step, hpc, hf, setC, Ev.caller, if_true]
+  | runlock t i a => simp only [Ev.caller] at hpc; simp only [step, hpc, setC, Ev.caller]
+  | call t i a => simp only [Ev.caller] at hpc; simp only [step, hpc, setC, Ev.caller, if_true]
+  | retOk t i a o op p hrq hcl htruth =>
+    simp only [Ev.caller] at hpc
+    have hc : ¬ ((a = s.h ∨ (s.truthful = true ∧ classify op o = some true)) ∧ o ≠ truth op p) := by
+      intro ⟨hor, hne⟩
+      apply hne
+      apply htruth
+      rcases hor with h1 | h1
+      · exact Or.inl h1
+      · exact Or.inr h1.1
+    simp only [step, hpc, hrq]
+    rw [if_neg hc]
+    simp only [hcl, setC, Ev.caller]
+  | retErr t i a o op p hrq hcl hne =>
+    simp only [Ev.caller] at hpc
+    have hc : ¬ ((a = s.h ∨ (s.truthful = true ∧ classify op o = some true)) ∧ o ≠ truth op p) := by
+      intro ⟨hor, _⟩
+      rcases hor with h1 | h1
+      · exact hne h1
+      · rw [hcl] at h1; cases h1.2
+    simp only [step, hpc, hrq]
+    rw [if_neg hc]
+    simp only [hcl, setC, Ev.caller]
+  | wantW t i a => simp only [Ev.caller] at hpc; simp only [step, hpc, setC, Ev.caller]
+  | lock t i a hf => simp only [Ev.caller] at hpc; simp only [step, hpc, hf, setC, Ev.caller, if_true]
+  | advance t i => simp only [Ev.caller] at hpc; simp only [step, hpc, setC, Ev.caller, if_true]
+  | stale t i a hne => simp only [Ev.caller] at hpc; simp only [step, hpc, setC, Ev.caller, if_neg hne]
+  | unlock t i => simp only [Ev.caller] at hpc; simp only [step, hpc, setC, Ev.caller]
 
 theorem forall_set {P : PC → Prop} {l : List PC} {u : Nat} {new : PC}
     (hall : ∀ (t : Nat) (pc : PC), l[t]? = some pc → P pc) (hnew : P new) :
@@ -87,111 +256,108 @@ theorem forall_set {P : PC → Prop} {l : List PC} {u : Nat} {new : PC}
     · cases h
   · exact hall t pc h
 
-theorem inv_init (n h k : Nat) (hn : 1 ≤ n) : Inv n h (St.init n h k) := by
+/-! ### no request fails -/
+
+/-- per-caller invariant (`act` is the shared `active` index) -/
+def Good (n h act : Nat) : PC → Prop
+  | .next i => i + d n h act ≤ n - 1
+  | .wantR i => i + d n h act ≤ n - 1
+  | .holdR i a => a < n ∧ i + d n h a ≤ n - 1 ∧ d n h act ≤ d n h a
+  | .toCall i a => a < n ∧ i + d n h a ≤ n - 1 ∧ d n h act ≤ d n h a
+  | .calling i a => a < n ∧ i + d n h a ≤ n - 1 ∧ d n h act ≤ d n h a
+  | .erred i a => a < n ∧ a ≠ h ∧ i + d n h a ≤ n - 1 ∧ d n h act ≤ d n h a
+  | .wantW i a => a < n ∧ a ≠ h ∧ i + d n h a ≤ n - 1 ∧ d n h act ≤ d n h a
+  | .holdW i a => a < n ∧ a ≠ h ∧ i + d n h a ≤ n - 1 ∧ d n h act ≤ d n h a
+  | .advd i => i + 1 + d n h act ≤ n - 1
+  | .ok _ _ => True
+  | .failed => False
+
+theorem Good.mono {n h act act' : Nat} {pc : PC} (hle : d n h act' ≤ d n h act)
+    (hg : Good n h act pc) : Good n h act' pc := by
+  cases pc <;> simp only [Good] at hg ⊢ <;> omega
+
+/-- the inductive invariant -/
+structure Inv (n h : Nat) (s : St) : Prop where
+  hn : s.n = n
+  hh : s.h = h
+  act : s.active < n
+  good : ∀ (t : Nat) (pc : PC), s.callers[t]? = some pc → Good n h s.active pc
+
+theorem inv_init (n h : Nat) (wp tr : Bool) (reqs : List (Op × Bool)) (hn : 1 ≤ n) :
+    Inv n h (St.init n h wp tr reqs) := by
   refine ⟨rfl, rfl, ?_, ?_⟩
   · show 0 < n
     omega
   · intro t pc hpc
     simp only [St.init, List.getElem?_replicate] at hpc
     split at hpc
-    · injection hpc with hpc; subst hpc; trivial
+    · injection hpc with hpc; subst hpc
+      have := @d_lt n h 0 hn
+      show 0 + d n h 0 ≤ n - 1
+      omega
     · cases hpc
 
 theorem inv_step {n h : Nat} (hn : 1 ≤ n) (hh : h < n) {s s' : St} (e : Ev)
     (hi : Inv n h s) (hs : step s e = some s') : Inv n h s' := by
   obtain ⟨en, eh, hact, hgood⟩ := hi
-  cases e with
-  | start t =>
-    simp only [step] at hs
-    split at hs
-    · injection hs with hs; subst hs
-      refine ⟨en, eh, hact, forall_set hgood ?_⟩
-      have := @d_lt n h s.active hn
-      show Good n h s.active (PC.readCur 0)
-      simp only [Good]; omega
-    · cases hs
-  | current t =>
-    simp only [step] at hs
-    split at hs
-    · rename_i i hpc
-      have hg := hgood t _ hpc
-      simp only [Good] at hg
-      have hlt : i < s.n := by omega
-      rw [if_pos hlt] at hs
-      injection hs with hs; subst hs
-      refine ⟨en, eh, hact, forall_set hgood ?_⟩
-      simp only [Good]
-      exact ⟨hact, hg, Nat.le_refl _⟩
-    · cases hs
-  | answer t =>
-    simp only [step] at hs
-    split at hs
-    · injection hs with hs; subst hs
-      exact ⟨en, eh, hact, forall_set hgood trivial⟩
-    · cases hs
-  | error t =>
-    simp only [step] at hs
-    split at hs
-    · rename_i i a hpc
-      have hg := hgood t _ hpc
-      simp only [Good] at hg
-      split at hs
-      · cases hs
-      · rename_i hne
-        injection hs with hs; subst hs
-        refine ⟨en, eh, hact, forall_set hgood ?_⟩
-        simp only [Good]
-        exact ⟨hg.1, by rw [← eh]; exact hne, hg.2.1, hg.2.2⟩
-    · cases hs
-  | errorFrom t =>
-    simp only [step] at hs
-    split at hs
-    · rename_i i a hpc
-      have hg := hgood t _ hpc
-      simp only [Good] at hg
-      obtain ⟨ha, hne, hia, hda⟩ := hg
-      injection hs with hs; subst hs
-      by_cases hact_eq : a = s.active
-      · rw [if_pos hact_eq]
-        subst hact_eq
-        have hsucc : d n h ((s.active + 1) % s.n) + 1 = d n h s.active := by
-          rw [en]; exact d_succ hh ha hne
-        refine ⟨en, eh, ?_, ?_⟩
-        · show (s.active + 1) % s.n < n
-          rw [en]; exact succ_mod_lt hn
-        · show ∀ (t' : Nat) (pc : PC), (s.callers.set t (PC.readCur (i + 1)))[t']? = some pc →
-              Good n h ((s.active + 1) % s.n) pc
-          apply forall_set
-          · intro t' pc h'
-            exact Good.mono (by omega) (hgood t' pc h')
-          · simp only [Good]; omega
-      · rw [if_neg hact_eq]
-        refine ⟨en, eh, hact, forall_set hgood ?_⟩
-        show Good n h s.active (PC.readCur (i + 1))
-        simp only [Good]
-        have : d n h s.active ≠ d n h a := fun he => hact_eq (d_inj hh hact ha he).symm
-        omega
-    · cases hs
+  obtain ⟨pc, pc', act', hpc, htr, hs'⟩ := step_spec hs
+  have hg := hgood _ _ hpc
+  rw [hs']
+  -- a transition that leaves `active` alone
+  have keep : ∀ {pc' : PC}, Good n h s.active pc' →
+      Inv n h { s with active := s.active, callers := s.callers.set e.caller pc' } :=
+    fun hnew => ⟨en, eh, hact, forall_set hgood hnew⟩
+  cases htr with
+  | wantR t i hlt => exact keep (by simp only [Good] at hg ⊢; exact hg)
+  | giveUp t i hlt => exact absurd (by simp only [Good] at hg; omega) hlt
+  | rlock t i hf => exact keep (by simp only [Good] at hg ⊢; exact ⟨hact, hg, Nat.le_refl _⟩)
+  | runlock t i a => exact keep (by simp only [Good] at hg ⊢; exact hg)
+  | call t i a => exact keep (by simp only [Good] at hg ⊢; exact hg)
+  | retOk t i a o op p hrq hcl htruth => exact keep (by simp only [Good])
+  | retErr t i a o op p hrq hcl hne =>
+    exact keep (by simp only [Good] at hg ⊢; exact ⟨hg.1, by rw [← eh]; exact hne, hg.2.1, hg.2.2⟩)
+  | wantW t i a => exact keep (by simp only [Good] at hg ⊢; exact hg)
+  | lock t i a hf => exact keep (by simp only [Good] at hg ⊢; exact hg)
+  | advance t i =>
+    simp only [Good] at hg
+    obtain ⟨ha, hne, hia, _⟩ := hg
+    have hsucc : d n h ((s.active + 1) % s.n) + 1 = d n h s.active := by
+      rw [en]; exact d_succ hh ha hne
+    refine ⟨en, eh, ?_, ?_⟩
+    · show (s.active + 1) % s.n < n
+      rw [en]; exact succ_mod_lt hn
+    · show ∀ (t' : Nat) (pc : PC), (s.callers.set t (PC.advd i))[t']? = some pc →
+          Good n h ((s.active + 1) % s.n) pc
+      apply forall_set
+      · intro t' pc h'
+        exact Good.mono (by omega) (hgood t' pc h')
+      · simp only [Good]; omega
+  | stale t i a hne =>
+    simp only [Good] at hg
+    obtain ⟨ha, _, hia, hda⟩ := hg
+    have : d n h s.active ≠ d n h a := fun he => hne (d_inj hh hact ha he).symm
+    exact keep (by simp only [Good]; omega)
+  | unlock t i => exact keep (by simp only [Good] at hg ⊢; omega)
 
-theorem inv_reachable {n h k : Nat} (hn : 1 ≤ n) (hh : h < n) {s : St}
-    (hr : Reachable (St.init n h k) s) : Inv n h s := by
+theorem inv_reachable {n h : Nat} {wp tr : Bool} {reqs : List (Op × Bool)} (hn : 1 ≤ n) (hh : h < n) {s : St}
+    (hr : Reachable (St.init n h wp tr reqs) s) : Inv n h s := by
   induction hr with
-  | refl => exact inv_init n h k hn
+  | refl => exact inv_init n h wp tr reqs hn
   | step e _ hs ih => exact inv_step hn hh e ih hs
 
 /-- **a group with a permanently healthy member keeps succeeding**: no caller ever reaches `failed`,
-in any interleaving of any number of callers -/
-theorem never_fails (n h k : Nat) (hn : 1 ≤ n) (hh : h < n) (s : St)
-    (hr : Reachable (St.init n h k) s) :
+in any interleaving of any number of callers, whatever the other members do -/
+theorem never_fails (n h : Nat) (wp tr : Bool) (reqs : List (Op × Bool)) (hn : 1 ≤ n) (hh : h < n) (s : St)
+    (hr : Reachable (St.init n h wp tr reqs) s) :
     ∀ (t : Nat), s.callers[t]? ≠ some PC.failed := by
   intro t ht
   exact (inv_reachable hn hh hr).good t _ ht
 
 /-- the attempt counter of a running caller never exceeds `n - 1 - dist active`: in particular it
 stays below `n`, and a caller that sees `active = h` is on its last needed attempt -/
-theorem attempts_bounded (n h k : Nat) (hn : 1 ≤ n) (hh : h < n) (s : St)
-    (hr : Reachable (St.init n h k) s) (t : Nat) :
-    (∀ i, s.callers[t]? = some (PC.readCur i) → i + dist s s.active ≤ n - 1) ∧
+theorem attempts_bounded (n h : Nat) (wp tr : Bool) (reqs : List (Op × Bool)) (hn : 1 ≤ n) (hh : h < n) (s : St)
+    (hr : Reachable (St.init n h wp tr reqs) s) (t : Nat) :
+    (∀ i, s.callers[t]? = some (PC.next i) → i + dist s s.active ≤ n - 1) ∧
     (∀ i a, s.callers[t]? = some (PC.calling i a) →
       a < n ∧ i + dist s a ≤ n - 1 ∧ dist s s.active ≤ dist s a) ∧
     (∀ i a, s.callers[t]? = some (PC.erred i a) →
@@ -204,10 +370,28 @@ theorem attempts_bounded (n h k : Nat) (hn : 1 ≤ n) (hh : h < n) (s : St)
   exact ⟨fun i hpc => hi.good t _ hpc, fun i a hpc => hi.good t _ hpc,
     fun i a hpc => hi.good t _ hpc⟩
 
-/-- one step: `active < n`, `n`/`h` are constant, the distance of `active` to the healthy member
-never increases, and once `active = h` it stays `h` -/
-theorem active_monotone_step (n h k : Nat) (hn : 1 ≤ n) (hh : h < n) (s s' : St)
-    (hr : Reachable (St.init n h k) s) (e : Ev) (hs : step s e = some s') :
+/-- **`active` only moves when the member it points to has failed a request**: a step changes `active`
+only if it is the `errorFrom(a)` of a caller whose member call on `a` returned an error (it holds the
+write lock with exactly `a = active`); then `active` moves to the next member, and the member left
+behind is not the healthy one -/
+theorem active_only_moves_on_error_of_active (n h : Nat) (wp tr : Bool) (reqs : List (Op × Bool))
+    (hn : 1 ≤ n) (hh : h < n) (s s' : St) (hr : Reachable (St.init n h wp tr reqs) s) (e : Ev)
+    (hs : step s e = some s') (hne : s'.active ≠ s.active) :
+    ∃ t i, e = .errFrom t ∧ s.callers[t]? = some (.holdW i s.active) ∧ s.active ≠ h ∧
+      s'.active = (s.active + 1) % n := by
+  have hi := inv_reachable hn hh hr
+  obtain ⟨pc, pc', act', hpc, htr, hs'⟩ := step_spec hs
+  have hg := hi.good _ _ hpc
+  cases htr with
+  | advance t i =>
+    simp only [Good] at hg
+    exact ⟨t, i, rfl, hpc, hg.2.1, by rw [hs', ← hi.hn]⟩
+  | _ => exact absurd (by rw [hs']) hne
+
+/-- one step: the distance of `active` to the healthy member never increases, and once `active = h`
+it stays `h` -/
+theorem active_monotone_step (n h : Nat) (wp tr : Bool) (reqs : List (Op × Bool)) (hn : 1 ≤ n) (hh : h < n)
+    (s s' : St) (hr : Reachable (St.init n h wp tr reqs) s) (e : Ev) (hs : step s e = some s') :
     s'.n = n ∧ s'.h = h ∧ s'.active < n ∧ dist s' s'.active ≤ dist s s.active ∧
       (s.active = h → s'.active = h) := by
   have hi := inv_reachable hn hh hr
@@ -215,50 +399,12 @@ theorem active_monotone_step (n h k : Nat) (hn : 1 ≤ n) (hh : h < n) (s s' : S
   refine ⟨hi'.hn, hi'.hh, hi'.act, ?_⟩
   unfold dist
   rw [hi'.hn, hi'.hh, hi.hn, hi.hh]
-  obtain ⟨en, eh, hact, hgood⟩ := hi
-  cases e with
-  | start t =>
-    simp only [step] at hs
-    split at hs
-    · injection hs with hs; subst hs; exact ⟨Nat.le_refl _, id⟩
-    · cases hs
-  | current t =>
-    simp only [step] at hs
-    split at hs
-    · split at hs <;> (injection hs with hs; subst hs; exact ⟨Nat.le_refl _, id⟩)
-    · cases hs
-  | answer t =>
-    simp only [step] at hs
-    split at hs
-    · injection hs with hs; subst hs; exact ⟨Nat.le_refl _, id⟩
-    · cases hs
-  | error t =>
-    simp only [step] at hs
-    split at hs
-    · split at hs
-      · cases hs
-      · injection hs with hs; subst hs; exact ⟨Nat.le_refl _, id⟩
-    · cases hs
-  | errorFrom t =>
-    simp only [step] at hs
-    split at hs
-    · rename_i i a hpc
-      have hg := hgood t _ hpc
-      simp only [Good] at hg
-      obtain ⟨ha, hne, hia, hda⟩ := hg
-      injection hs with hs; subst hs
-      by_cases hact_eq : a = s.active
-      · rw [if_pos hact_eq]
-        subst hact_eq
-        have hsucc : d n h ((s.active + 1) % s.n) + 1 = d n h s.active := by
-          rw [en]; exact d_succ hh ha hne
-        refine ⟨?_, ?_⟩
-        · show d n h ((s.active + 1) % s.n) ≤ d n h s.active
-          omega
-        · intro hah; exact absurd hah hne
-      · rw [if_neg hact_eq]
-        exact ⟨Nat.le_refl _, id⟩
-    · cases hs
+  by_cases hch : s'.active = s.active
+  · rw [hch]; exact ⟨Nat.le_refl _, id⟩
+  · obtain ⟨t, i, _, hpc, hne, hact'⟩ := active_only_moves_on_error_of_active n h wp tr reqs hn hh s s' hr e hs hch
+    have hsucc := d_succ hh hi.act hne
+    rw [hact']
+    exact ⟨by omega, fun h0 => absurd h0 hne⟩
 
 theorem reachable_trans {s0 s1 s2 : St} (h1 : Reachable s0 s1) (h2 : Reachable s1 s2) :
     Reachable s0 s2 := by
@@ -268,42 +414,394 @@ theorem reachable_trans {s0 s1 s2 : St} (h1 : Reachable s0 s1) (h2 : Reachable s
 
 /-- over any run: the distance of `active` to the healthy member never increases, and `active`
 stops at `h`: once `active = h` it stays `h` forever -/
-theorem active_monotone (n h k : Nat) (hn : 1 ≤ n) (hh : h < n) (s s' : St)
-    (hr : Reachable (St.init n h k) s) (hr' : Reachable s s') :
+theorem active_monotone (n h : Nat) (wp tr : Bool) (reqs : List (Op × Bool)) (hn : 1 ≤ n) (hh : h < n) (s s' : St)
+    (hr : Reachable (St.init n h wp tr reqs) s) (hr' : Reachable s s') :
     s'.active < n ∧ dist s' s'.active ≤ dist s s.active ∧ (s.active = h → s'.active = h) := by
   induction hr' with
   | refl => exact ⟨(inv_reachable hn hh hr).act, Nat.le_refl _, id⟩
   | step e hmid hs ih =>
-    have := active_monotone_step n h k hn hh _ _ (reachable_trans hr hmid) e hs
+    have := active_monotone_step n h wp tr reqs hn hh _ _ (reachable_trans hr hmid) e hs
     exact ⟨this.2.2.1, Nat.le_trans this.2.2.2.1 ih.2.1, fun h0 => this.2.2.2.2 (ih.2.2 h0)⟩
 
-/-- the caller an event belongs to -/
-def Ev.caller : Ev → Nat
-  | .start t => t
-  | .current t => t
-  | .answer t => t
-  | .error t => t
-  | .errorFrom t => t
+/-! ### what a request returns -/
 
-/-- **progress**: every caller that has not returned has an enabled event of its own (no lock is
-held across a member call, so nobody blocks anybody), and by `never_fails` the only way to return is
-`ok` -/
-theorem no_deadlock (n h k : Nat) (hn : 1 ≤ n) (hh : h < n) (s : St)
-    (hr : Reachable (St.init n h k) s) (t : Nat) (pc : PC) (hpc : s.callers[t]? = some pc)
-    (hok : pc ≠ PC.ok) : ∃ (e : Ev) (s' : St), e.caller = t ∧ step s e = some s' := by
+/-- configuration fields never change -/
+theorem step_config {s s' : St} {e : Ev} (hs : step s e = some s') :
+    s'.n = s.n ∧ s'.h = s.h ∧ s'.wp = s.wp ∧ s'.truthful = s.truthful ∧ s'.reqs = s.reqs := by
+  obtain ⟨_, _, _, _, _, hs'⟩ := step_spec hs
+  rw [hs']
+  exact ⟨rfl, rfl, rfl, rfl, rfl⟩
+
+theorem reachable_config {s0 s : St} (hr : Reachable s0 s) :
+    s.n = s0.n ∧ s.h = s0.h ∧ s.wp = s0.wp ∧ s.truthful = s0.truthful ∧ s.reqs = s0.reqs := by
+  induction hr with
+  | refl => exact ⟨rfl, rfl, rfl, rfl, rfl⟩
+  | step e _ hs ih =>
+    obtain ⟨a, b, c, dd, f⟩ := step_config hs
+    exact ⟨a.trans ih.1, b.trans ih.2.1, c.trans ih.2.2.1, dd.trans ih.2.2.2.1, f.trans ih.2.2.2.2⟩
+
+/-- what holds of a caller that has returned -/
+def ResOk (s : St) (t : Nat) : PC → Prop
+  | .ok o a => ∃ op p, s.reqs[t]? = some (op, p) ∧ classify op o = some true ∧
+      (a = s.h ∨ s.truthful = true → o = truth op p)
+  | _ => True
+
+theorem resok_step {s s' : St} {e : Ev} (hs : step s e = some s')
+    (hi : ∀ (t : Nat) (pc : PC), s.callers[t]? = some pc → ResOk s t pc) :
+    ∀ (t : Nat) (pc : PC), s'.callers[t]? = some pc → ResOk s' t pc := by
+  obtain ⟨pc0, pc', act', hpc, htr, hs'⟩ := step_spec hs
+  intro t pc h
+  rw [hs'] at h
+  simp only [List.getElem?_set] at h
+  have same : ∀ pc, ResOk s t pc → ResOk s' t pc := by
+    intro pc hp
+    rw [hs']
+    cases pc <;> first | trivial | exact hp
+  split at h
+  · rename_i heq
+    split at h
+    · injection h with h; subst h
+      apply same
+      subst heq
+      cases htr with
+      | retOk t i a o op p hrq hcl htruth => exact ⟨op, p, hrq, hcl, htruth⟩
+      | _ => trivial
+    · cases h
+  · exact same pc (hi t pc h)
+
+/-- **a request returns what a member answered, unmasked**: a caller that has returned holds an answer
+(a chunk or "missing" for `GetChunk`, a verdict for `HasChunk` — never an error turned into something
+else, never a missing chunk turned into a failure), and it is the truth whenever it came from the
+healthy member or the members are replicas -/
+theorem resok_reachable {n h : Nat} {wp tr : Bool} {reqs : List (Op × Bool)} {s : St}
+    (hr : Reachable (St.init n h wp tr reqs) s) :
+    ∀ (t : Nat) (pc : PC), s.callers[t]? = some pc → ResOk s t pc := by
+  induction hr with
+  | refl =>
+    intro t pc hpc
+    simp only [St.init, List.getElem?_replicate] at hpc
+    split at hpc
+    · injection hpc with hpc; subst hpc; trivial
+    · cases hpc
+  | step e _ hs ih => exact resok_step hs ih
+
+/-- **a request returns what a member answered, unmasked**: a caller that has returned holds an answer
+(a chunk or "missing" for `GetChunk`, a verdict for `HasChunk` — never an error turned into something
+else, never a missing chunk turned into a failure), and it is the truth whenever it came from the
+healthy member or the members are replicas -/
+theorem result_is_answer (n h : Nat) (wp tr : Bool) (reqs : List (Op × Bool)) (s : St)
+    (hr : Reachable (St.init n h wp tr reqs) s) (t : Nat) (o : Out) (a : Nat)
+    (hpc : s.callers[t]? = some (.ok o a)) :
+    ∃ op p, reqs[t]? = some (op, p) ∧ classify op o = some true ∧ (a = h ∨ tr = true → o = truth op p) := by
+  have hc := reachable_config hr
+  have := resok_reachable hr t _ hpc
+  simp only [ResOk] at this
+  rw [hc.2.2.2.2, hc.2.1, hc.2.2.2.1] at this
+  exact this
+
+/-! ### the lock discipline -/
+
+def PC.holds (pc : PC) : Bool := pc.isReader || pc.isWriter
+
+theorem all_get {l : List PC} {f : PC → Bool} (h : l.all f = true) {t : Nat} {pc : PC}
+    (hpc : l[t]? = some pc) : f pc = true :=
+  List.all_eq_true.mp h pc (List.mem_of_getElem? hpc)
+
+/-- mutual exclusion, and a read lock pins `active` -/
+structure Mx (s : St) : Prop where
+  excl : ∀ (t u : Nat) (p q : PC), s.callers[t]? = some p → s.callers[u]? = some q → t ≠ u →
+    p.isWriter = true → q.holds = false
+  pin : ∀ (t i a : Nat), s.callers[t]? = some (.holdR i a) → a = s.active
+
+theorem get_set_ne {l : List PC} {c t : Nat} {x pc : PC} (hne : t ≠ c) (h : (l.set c x)[t]? = some pc) :
+    l[t]? = some pc := by
+  rw [List.getElem?_set] at h
+  rw [if_neg (fun h' => hne h'.symm)] at h
+  exact h
+
+theorem get_set_eq {l : List PC} {c : Nat} {x pc : PC} (h : (l.set c x)[c]? = some pc) : pc = x := by
+  rw [List.getElem?_set] at h
+  simp only [if_true] at h
+  split at h
+  · injection h with h; exact h.symm
+  · cases h
+
+theorem mx_step {s s' : St} {e : Ev} (hs : step s e = some s') (hi : Mx s) : Mx s' := by
+  obtain ⟨pc0, pc', act', hpc, htr, hs'⟩ := step_spec hs
+  obtain ⟨hex, hpin⟩ := hi
+  subst hs'
+  have excl_of : (pc'.isWriter = true → pc0.isWriter = true) → (pc'.holds = true → pc0.holds = true) →
+      ∀ (t u : Nat) (p q : PC), (s.callers.set e.caller pc')[t]? = some p → (s.callers.set e.caller pc')[u]? = some q → t ≠ u →
+        p.isWriter = true → q.holds = false := by
+    intro hw hh t u p q hp hq hne hpw
+    by_cases htc : t = e.caller
+    · subst htc
+      have := get_set_eq hp; subst this
+      have hq' := get_set_ne (fun h => hne h.symm) hq
+      exact hex _ _ _ _ hpc hq' hne (hw hpw)
+    · have hp' := get_set_ne htc hp
+      by_cases huc : u = e.caller
+      · subst huc
+        have := get_set_eq hq; subst this
+        have := hex _ _ _ _ hp' hpc hne hpw
+        cases hh' : q.holds
+        · rfl
+        · rw [hh hh'] at this; cases this
+      · exact hex _ _ _ _ hp' (get_set_ne huc hq) hne hpw
+  have pin_of : act' = s.active → (∀ i a, pc' = .holdR i a → pc0 = .holdR i a ∨ a = s.active) →
+      ∀ (t i a : Nat), (s.callers.set e.caller pc')[t]? = some (.holdR i a) → a = act' := by
+    intro hact hr t i a hp
+    rw [hact]
+    by_cases htc : t = e.caller
+    · subst htc
+      have := get_set_eq hp
+      rcases hr i a this.symm with h1 | h1
+      · rw [h1] at hpc; exact hpin _ _ _ hpc
+      · exact h1
+    · exact hpin _ _ _ (get_set_ne htc hp)
+  cases htr with
+  | wantR t i hlt =>
+    exact ⟨excl_of (by intro h; cases h) (by intro h; cases h), pin_of rfl (by intro i a h; cases h)⟩
+  | giveUp t i hlt =>
+    exact ⟨excl_of (by intro h; cases h) (by intro h; cases h), pin_of rfl (by intro i a h; cases h)⟩
+  | rlock t i hf =>
+    refine ⟨?_, pin_of rfl (by intro i a h; injection h with _ h; exact Or.inr h.symm)⟩
+    intro t' u p q hp hq hne hpw
+    simp only [Ev.caller] at hp hq
+    by_cases htc : t' = t
+    · subst htc
+      have := get_set_eq hp; subst this; cases hpw
+    · have hp' := get_set_ne htc hp
+      have := all_get hf hp'
+      rw [hpw] at this
+      cases this
+  | runlock t i a =>
+    exact ⟨excl_of (by intro h; cases h) (by intro h; cases h), pin_of rfl (by intro i a h; cases h)⟩
+  | call t i a =>
+    exact ⟨excl_of (by intro h; cases h) (by intro h; cases h), pin_of rfl (by intro i a h; cases h)⟩
+  | retOk t i a o op p hrq hcl htruth =>
+    exact ⟨excl_of (by intro h; cases h) (by intro h; cases h), pin_of rfl (by intro i a h; cases h)⟩
+  | retErr t i a o op p hrq hcl hne =>
+    exact ⟨excl_of (by intro h; cases h) (by intro h; cases h), pin_of rfl (by intro i a h; cases h)⟩
+  | wantW t i a =>
+    exact ⟨excl_of (by intro h; cases h) (by intro h; cases h), pin_of rfl (by intro i a h; cases h)⟩
+  | lock t i a hf =>
+    refine ⟨?_, pin_of rfl (by intro i a h; cases h)⟩
+    intro t' u p q hp hq hne hpw
+    simp only [Ev.caller] at hp hq
+    by_cases huc : u = t
+    · subst huc
+      have htc : t' ≠ u := hne
+      have hp' := get_set_ne htc hp
+      have := all_get hf hp'
+      simp only [hpw, Bool.or_true, Bool.not_true] at this
+      cases this
+    · have hq' := get_set_ne huc hq
+      have := all_get hf hq'
+      simp only [PC.holds]
+      cases hh : (q.isReader || q.isWriter)
+      · rfl
+      · rw [hh] at this; cases this
+  | advance t i =>
+    refine ⟨excl_of (fun _ => rfl) (fun _ => rfl), ?_⟩
+    intro t' i' a' hp
+    simp only [Ev.caller] at hp
+    by_cases htc : t' = t
+    · subst htc
+      have := get_set_eq hp; cases this
+    · have hp' := get_set_ne htc hp
+      have := hex _ _ _ _ hpc hp' (fun h => htc h.symm) rfl
+      cases this
+  | stale t i a hne =>
+    exact ⟨excl_of (fun _ => rfl) (fun _ => rfl), pin_of rfl (by intro i a h; cases h)⟩
+  | unlock t i =>
+    exact ⟨excl_of (by intro h; cases h) (by intro h; cases h), pin_of rfl (by intro i a h; cases h)⟩
+
+theorem mx_init (n h : Nat) (wp tr : Bool) (reqs : List (Op × Bool)) : Mx (St.init n h wp tr reqs) := by
+  refine ⟨?_, ?_⟩
+  · intro t u p q hp _ _ hpw
+    simp only [St.init, List.getElem?_replicate] at hp
+    split at hp
+    · injection hp with hp; subst hp; cases hpw
+    · cases hp
+  · intro t i a hp
+    simp only [St.init, List.getElem?_replicate] at hp
+    split at hp
+    · injection hp with hp; cases hp
+    · cases hp
+
+/-- **the lock discipline**: a caller inside `errorFrom` (holding the write lock) is alone — no other
+caller holds the lock in either mode — and the `active` a caller has read inside `current()` is the
+current one for as long as it holds the read lock: `current()` and `errorFrom()` are atomic -/
+theorem mutex (n h : Nat) (wp tr : Bool) (reqs : List (Op × Bool)) (s : St)
+    (hr : Reachable (St.init n h wp tr reqs) s) : Mx s := by
+  induction hr with
+  | refl => exact mx_init n h wp tr reqs
+  | step e _ hs ih => exact mx_step hs ih
+
+/-! ### progress -/
+
+/-- every caller has its request -/
+theorem callers_length {n h : Nat} {wp tr : Bool} {reqs : List (Op × Bool)} {s : St}
+    (hr : Reachable (St.init n h wp tr reqs) s) : s.callers.length = s.reqs.length := by
+  induction hr with
+  | refl => simp [St.init]
+  | step e _ hs ih =>
+    obtain ⟨_, _, _, _, _, hs'⟩ := step_spec hs
+    rw [hs']; simp only [List.length_set]; exact ih
+
+def PC.final : PC → Bool
+  | .ok _ _ => true
+  | .failed => true
+  | _ => false
+
+/-- waiting for the mutex -/
+def PC.waiting : PC → Bool
+  | .wantR _ => true
+  | .wantW _ _ => true
+  | _ => false
+
+/-- a caller that holds the lock always has an enabled event of its own -/
+theorem holder_enabled {s : St} {u : Nat} {q : PC} (hq : s.callers[u]? = some q) (hh : q.holds = true) :
+    ∃ (e : Ev) (s' : St), e.caller = u ∧ step s e = some s' := by
+  cases q with
+  | holdR i a => exact ⟨.runlock u, _, rfl, step_of_tr (e := .runlock u) hq (.runlock u i a)⟩
+  | holdW i a =>
+    by_cases ha : a = s.active
+    · subst ha; exact ⟨.errFrom u, _, rfl, step_of_tr (e := .errFrom u) hq (.advance u i)⟩
+    · exact ⟨.errFrom u, _, rfl, step_of_tr (e := .errFrom u) hq (.stale u i a ha)⟩
+  | advd i => exact ⟨.unlock u, _, rfl, step_of_tr (e := .unlock u) hq (.unlock u i)⟩
+  | _ => cases hh
+
+theorem not_all {l : List PC} {f : PC → Bool} (h : ¬ l.all f = true) :
+    ∃ (u : Nat) (q : PC), l[u]? = some q ∧ f q = false := by
+  have : ¬ ∀ x ∈ l, f x = true := fun h' => h (List.all_eq_true.mpr h')
+  have ⟨x, hx⟩ := Classical.not_forall.mp this
+  have ⟨hm, hf⟩ := Classical.not_imp.mp hx
+  obtain ⟨u, hu⟩ := List.getElem?_of_mem hm
+  refine ⟨u, x, hu, ?_⟩
+  cases hfx : f x
+  · rfl
+  · exact absurd hfx hf
+
+/-- **progress**: a caller that has not returned either has an enabled event of its own, or it waits
+for the mutex and a caller that holds the mutex has an enabled event (holders never block: no lock is
+held across a member call), or it waits only because a writer has announced itself and that writer can
+take the lock now.  By `never_fails` the only way to return is an answer. -/
+theorem no_deadlock (n h : Nat) (wp tr : Bool) (reqs : List (Op × Bool)) (hn : 1 ≤ n) (hh : h < n) (s : St)
+    (hr : Reachable (St.init n h wp tr reqs) s) (t : Nat) (pc : PC) (hpc : s.callers[t]? = some pc)
+    (hok : ∀ o a, pc ≠ PC.ok o a) :
+    (∃ (e : Ev) (s' : St), e.caller = t ∧ step s e = some s') ∨
+    (pc.waiting = true ∧ ∃ (u : Nat) (q : PC), u ≠ t ∧ s.callers[u]? = some q ∧
+      ((q.holds = true ∧ ∃ (e : Ev) (s' : St), e.caller = u ∧ step s e = some s') ∨
+       (q.isPendingW = true ∧ ∃ s', step s (.lock u) = some s'))) := by
+  -- a caller blocked at Lock: somebody else holds the lock
+  have blockedW : ∀ (v : Nat) (i a : Nat), s.callers[v]? = some (.wantW i a) → ¬ lockFree s = true →
+      ∃ (u : Nat) (q : PC), u ≠ v ∧ s.callers[u]? = some q ∧ q.holds = true := by
+    intro v i a hv hf
+    obtain ⟨u, q, hq, hfq⟩ := not_all hf
+    refine ⟨u, q, ?_, hq, ?_⟩
+    · intro huv; subst huv; rw [hv] at hq; injection hq with hq; subst hq; cases hfq
+    · simp only [PC.holds]
+      cases hh' : (q.isReader || q.isWriter)
+      · rw [hh'] at hfq; cases hfq
+      · rfl
   cases pc with
-  | idle => exact ⟨.start t, setC s t (.readCur 0), rfl, by simp only [step, hpc]⟩
-  | readCur i =>
-    refine ⟨.current t, if i < s.n then setC s t (.calling i s.active) else setC s t .failed, rfl, ?_⟩
-    simp only [step, hpc]
-    split <;> rfl
-  | calling i a => exact ⟨.answer t, setC s t .ok, rfl, by simp only [step, hpc]⟩
-  | erred i a =>
-    exact ⟨.errorFrom t,
-      setC (if a = s.active then { s with active := (s.active + 1) % s.n } else s) t
-        (.readCur (i + 1)), rfl, by simp only [step, hpc]⟩
-  | ok => exact absurd rfl hok
-  | failed => exact absurd hpc (never_fails n h k hn hh s hr t)
+  | next i =>
+    by_cases hlt : i < s.n
+    · exact Or.inl ⟨.wantR t, _, rfl, step_of_tr (e := .wantR t) hpc (.wantR t i hlt)⟩
+    · exact Or.inl ⟨.giveUp t, _, rfl, step_of_tr (e := .giveUp t) hpc (.giveUp t i hlt)⟩
+  | wantR i =>
+    by_cases hf : rlockFree s = true
+    · exact Or.inl ⟨.rlock t, _, rfl, step_of_tr (e := .rlock t) hpc (.rlock t i hf)⟩
+    · obtain ⟨u, q, hq, hfq⟩ := not_all hf
+      have hut : u ≠ t := by
+        intro hut; subst hut; rw [hpc] at hq; injection hq with hq; subst hq
+        simp [PC.isWriter, PC.isPendingW] at hfq
+      refine Or.inr ⟨rfl, ?_⟩
+      by_cases hw : q.isWriter = true
+      · exact ⟨u, q, hut, hq, Or.inl ⟨by simp only [PC.holds, hw, Bool.or_true], holder_enabled hq (by simp only [PC.holds, hw, Bool.or_true])⟩⟩
+      · have hpw : q.isPendingW = true := by
+          cases hq1 : q.isWriter
+          · rw [hq1] at hfq
+            simp only [Bool.false_or, Bool.not_eq_false', Bool.and_eq_true] at hfq
+            exact hfq.2
+          · exact absurd hq1 hw
+        cases q with
+        | wantW i' a' =>
+          by_cases hlf : lockFree s = true
+          · exact ⟨u, _, hut, hq, Or.inr ⟨rfl, _, step_of_tr (e := .lock u) hq (.lock u i' a' hlf)⟩⟩
+          · obtain ⟨v, q', hvu, hq', hh'⟩ := blockedW u i' a' hq hlf
+            have hvt : v ≠ t := by
+              intro hvt; subst hvt; rw [hpc] at hq'; injection hq' with hq'; subst hq'; cases hh'
+            exact ⟨v, q', hvt, hq', Or.inl ⟨hh', holder_enabled hq' hh'⟩⟩
+        | _ => cases hpw
+  | holdR i a => exact Or.inl (holder_enabled hpc rfl)
+  | toCall i a => exact Or.inl ⟨.call t a, _, rfl, step_of_tr (e := .call t a) hpc (.call t i a)⟩
+  | calling i a =>
+    -- a truthful answer is always possible (and the healthy member gives no other)
+    have hlen : t < s.reqs.length := by
+      rw [← callers_length hr]
+      rcases Nat.lt_or_ge t s.callers.length with hlt | hge
+      · exact hlt
+      · rw [List.getElem?_eq_none hge] at hpc; cases hpc
+    have hrq : s.reqs[t]? = some (s.reqs[t]) := List.getElem?_eq_getElem hlen
+    generalize s.reqs[t] = rq at hrq
+    obtain ⟨op, p⟩ := rq
+    exact Or.inl ⟨.ret t (truth op p), _, rfl,
+      step_of_tr (e := .ret t (truth op p)) hpc (.retOk t i a _ op p hrq (classify_truth op p) (fun _ => rfl))⟩
+  | erred i a => exact Or.inl ⟨.wantW t, _, rfl, step_of_tr (e := .wantW t) hpc (.wantW t i a)⟩
+  | wantW i a =>
+    by_cases hlf : lockFree s = true
+    · exact Or.inl ⟨.lock t, _, rfl, step_of_tr (e := .lock t) hpc (.lock t i a hlf)⟩
+    · obtain ⟨u, q, hut, hq, hh'⟩ := blockedW t i a hpc hlf
+      exact Or.inr ⟨rfl, u, q, hut, hq, Or.inl ⟨hh', holder_enabled hq hh'⟩⟩
+  | holdW i a => exact Or.inl (holder_enabled hpc rfl)
+  | advd i => exact Or.inl (holder_enabled hpc rfl)
+  | ok o a => exact absurd rfl (hok o a)
+  | failed => exact absurd hpc (never_fails n h wp tr reqs hn hh s hr t)
+
+/-- **`HasChunk` through the group**: a `HasChunk` caller that has returned holds a verdict `(b, nil)` —
+`HasChunk` has no `ChunkMissing` arm, every error of a member (a `ChunkMissing` error included) is failed
+over, never returned — and the verdict is the truth whenever it came from the healthy member or the
+members are replicas -/
+theorem has_healthy (n h : Nat) (wp tr : Bool) (reqs : List (Op × Bool)) (s : St)
+    (hr : Reachable (St.init n h wp tr reqs) s) (t : Nat) (p : Bool) (hreq : reqs[t]? = some (.has, p))
+    (o : Out) (a : Nat) (hpc : s.callers[t]? = some (.ok o a)) :
+    ∃ b, o = .has b ∧ (a = h ∨ tr = true → b = p) := by
+  obtain ⟨op, p', hrq, hcl, htruth⟩ := result_is_answer n h wp tr reqs s hr t o a hpc
+  rw [hreq] at hrq
+  injection hrq with hrq
+  injection hrq with h1 h2
+  subst h1; subst h2
+  cases o with
+  | has b =>
+    refine ⟨b, rfl, ?_⟩
+    intro hor
+    have := htruth hor
+    simp only [truth] at this
+    injection this
+  | chunk => cases hcl
+  | missing => cases hcl
+  | error => cases hcl
+
+/-! ### runs (for examples and the driver) -/
+
+def run (s : St) : List Ev → Option St
+  | [] => some s
+  | e :: es => match step s e with
+    | some s' => run s' es
+    | none => none
+
+theorem run_reachable {s0 s s' : St} (hr : Reachable s0 s) (es : List Ev) (h : run s es = some s') :
+    Reachable s0 s' := by
+  induction es generalizing s with
+  | nil => simp only [run] at h; injection h with h; subst h; exact hr
+  | cons e es ih =>
+    simp only [run] at h
+    split at h
+    · rename_i s1 hs1
+      exact ih (Reachable.step e hr hs1) h
+    · cases h
 
 end Desync.Failover
-
